@@ -39,7 +39,7 @@ def bounds(tier):
         "history_depth": 3 if tier == "quick" else 4,
         "max_atoms": MAX_N,
         "initial_lists": len(INITS),
-        "palettes": 2 if tier == "quick" else len(PALETTES),
+        "palettes": 1 if tier == "quick" else len(PALETTES),
         "construct_rows": "<=2 rows n<=4, 3 rows n<=2" if tier == "quick" else "<=3 rows n<=3, 2 rows n=4",
     }
 
@@ -630,7 +630,7 @@ NRES = 6
 
 
 def shards(tier, seed):
-    pals = [PALETTES[0], PALETTES[1 + seed % 4]] if tier == "quick" else PALETTES
+    pals = [PALETTES[seed % len(PALETTES)]] if tier == "quick" else PALETTES
     out = []
     for init in INITS:
         for pal in pals:
